@@ -74,6 +74,7 @@ type lbEngine struct {
 	scanNeed    map[string]int64 // C14/R10: terminator -> bytes of the opener the search must have left behind
 	searchCalls map[*ssa.Function][]*ssa.Call
 	clsSets     map[*ssa.Function]*bset
+	posProbe    map[*ssa.Call]bool // summary run over File.Position: is the argument of this ResolvePos call proved <= len(Buffer)?
 	scanFns     map[string]bool             // functions whose loops are byte scans: checked for unit steps and exhaustive exits
 	progress    bool                        // C03/R7: every loop iteration advances the cursor or a counter
 	tiling      bool                        // C13/R4: track the Space/Raw/Pos/End stores of tokens and comments
@@ -2003,17 +2004,66 @@ func (e *lbEngine) execCall(in *lbInst, st *lstate, call *ssa.Call) *lstate {
 		st = st.eliminate(e.at, map[atomID]bool{tp: true, te: true}).renameAll(map[atomID]atomID{ntp: tp, nte: te})
 		return st
 	}
-	// File.Position contract
+	// File.Position contract: what it hands to File.ResolvePos must lie within the input, in ascending order. The
+	// arguments of those calls are read off Position itself (a clamp of `end` to len(Buffer) inside it counts).
 	if callee.Name() == "Position" && callee.Signature.Recv() != nil && fnPkgPath(callee) == modRoot+"/token" && len(com.Args) == 3 {
 		if e.aliasOf(in, com.Args[0]) == "file" {
 			p, ok1 := e.linear(in, com.Args[1])
 			q, ok2 := e.linear(in, com.Args[2])
+			sum := e.w.positionSummary()
 			if ok1 && ok2 {
-				e.require(in, st, call, "C03/R6", "error position within the input", []string{"pos <= len(Buffer)", "end <= len(Buffer)"},
-					[]lin{linAtom(e.N).sub(p), linAtom(e.N).sub(q)})
-				e.require(in, st, call, "C09/R5", "error range is ordered", []string{"0 <= pos", "pos <= end"},
-					[]lin{p, q.sub(p)})
+				if sum == nil {
+					e.require(in, st, call, "C03/R6", "error position within the input", []string{"File.Position resolves its arguments (or values clamped from them) with File.ResolvePos"}, []lin{linConst(-1)})
+					return st
+				}
+				term := func(o string) lin {
+					switch o {
+					case "pos":
+						return p
+					case "end":
+						return q
+					}
+					return linAtom(e.N)
+				}
+				var what1, what2 []string
+				var need1, need2 []lin
+				for k, ra := range sum {
+					for _, o := range ra.origins {
+						if !ra.clamped && o != "N" {
+							what1 = append(what1, o+" <= len(Buffer)")
+							need1 = append(need1, linAtom(e.N).sub(term(o)))
+						}
+						if k == 0 {
+							what2 = append(what2, "0 <= "+o)
+							need2 = append(need2, term(o))
+							continue
+						}
+						for _, po := range sum[k-1].origins {
+							if po == o {
+								continue
+							}
+							what2 = append(what2, po+" <= "+map[string]string{"pos": "pos", "end": "end", "N": "len(Buffer) (the clamped end)"}[o])
+							need2 = append(need2, term(o).sub(term(po)))
+						}
+					}
+				}
+				if len(need1) > 0 {
+					e.require(in, st, call, "C03/R6", "error position within the input", what1, need1)
+				} else {
+					e.require(in, st, call, "C03/R6", "error position within the input", []string{"clamped inside File.Position"}, []lin{linConst(0)})
+				}
+				e.require(in, st, call, "C09/R5", "error range is ordered", what2, need2)
 			}
+		}
+		return st
+	}
+	if e.posProbe != nil && callee.Name() == "ResolvePos" && callee.Signature.Recv() != nil && fnPkgPath(callee) == modRoot+"/token" && len(com.Args) == 2 && e.record {
+		if x, ok := e.linear(in, com.Args[1]); ok {
+			proved := st.proves(e.at, lfact{l: linAtom(e.N).sub(x)})
+			if old, seen := e.posProbe[call]; seen {
+				proved = proved && old
+			}
+			e.posProbe[call] = proved
 		}
 		return st
 	}
@@ -2120,6 +2170,84 @@ func (e *lbEngine) classifierSet(fn *ssa.Function) (bset, bool) {
 	}
 	e.clsSets[fn] = &out
 	return out, true
+}
+
+type resolvedArg struct {
+	origins []string // "pos", "end" (parameters of Position), "N" (len(f.Buffer))
+	clamped bool     // Position itself establishes arg <= len(Buffer)
+}
+
+// positionSummary: the arguments of the File.ResolvePos calls of File.Position, in order, as the parameters they come
+// from; nil when Position does not have that shape.
+func (w *World) positionSummary() []resolvedArg {
+	if w.posSumDone {
+		return w.posSum
+	}
+	w.posSumDone = true
+	fn := w.fn(w.Tok, "(*File).Position")
+	if fn == nil || len(fn.Params) != 3 {
+		return nil
+	}
+	var calls []*ssa.Call
+	for _, b := range fn.DomPreorder() {
+		for _, in := range b.Instrs {
+			if c, ok := in.(*ssa.Call); ok {
+				if cc := c.Call.StaticCallee(); cc != nil && cc.Name() == "ResolvePos" && fnPkgPath(cc) == modRoot+"/token" && len(c.Call.Args) == 2 {
+					calls = append(calls, c)
+				}
+			}
+		}
+	}
+	if len(calls) < 2 {
+		return nil
+	}
+	e := w.newLexBounds()
+	e.posProbe = map[*ssa.Call]bool{}
+	in := &lbInst{fn: fn, bindLin: map[*ssa.Parameter]lin{}, bindLen: map[*ssa.Parameter]lin{}, bindBool: map[*ssa.Parameter]bool{}, alias: map[ssa.Value]string{fn.Params[0]: "file"}}
+	e.frames = []lbFrame{{fn: fn}}
+	e.record = true
+	e.run(in, emptyState())
+	e.frames = nil
+	isBufLen := func(v ssa.Value) bool {
+		for {
+			switch x := v.(type) {
+			case *ssa.Convert:
+				v = x.X
+				continue
+			case *ssa.ChangeType:
+				v = x.X
+				continue
+			case *ssa.Call:
+				if isLenCall(x) {
+					if ld, ok := isLoad(x.Call.Args[0]); ok {
+						if fa, ok := ld.(*ssa.FieldAddr); ok && fa.X == ssa.Value(fn.Params[0]) && fieldAddrName(fa) == "Buffer" {
+							return true
+						}
+					}
+				}
+			}
+			return false
+		}
+	}
+	var out []resolvedArg
+	for _, c := range calls {
+		ra := resolvedArg{clamped: e.posProbe[c]}
+		for _, o := range phiOrigins(c.Call.Args[1]) {
+			switch {
+			case o == ssa.Value(fn.Params[1]):
+				ra.origins = append(ra.origins, "pos")
+			case o == ssa.Value(fn.Params[2]):
+				ra.origins = append(ra.origins, "end")
+			case isBufLen(o):
+				ra.origins = append(ra.origins, "N")
+			default:
+				return nil
+			}
+		}
+		out = append(out, ra)
+	}
+	w.posSum = out
+	return out
 }
 
 func (e *lbEngine) inScope(fn *ssa.Function) bool {
